@@ -1,0 +1,84 @@
+//! Verification instrumentation, compiled only with `--cfg mdit_verif` (never in normal builds).
+//!
+//!  * recursion gauge: number of simultaneously active tokenizer frames (block `tokenize`,
+//!    inline `tokenize`, inline `skip_token`) and the nesting `level` seen at each entry;
+//!  * look-ahead probe: immediately before a rule is invoked for real, the same rule is invoked
+//!    in look-ahead (silent) mode on the same state; verdicts/extents of both calls and whether
+//!    the look-ahead call left the tree untouched are logged.
+use std::cell::RefCell;
+use crate::Node;
+
+#[derive(Debug, Clone)]
+pub struct ProbeRecord {
+    pub inline: bool,
+    pub rule_idx: usize,
+    pub at: usize,                 // line (block) or byte position (inline)
+    pub silent: Option<usize>,     // block: Some(line after) on success; inline: Some(len)
+    pub real: Option<usize>,       // block: Some(line after) on success; inline: Some(len)
+    pub silent_kept_tree: bool,
+    pub silent_kept_pos: bool,     // inline: `pos`/`pos_max` unchanged; block: offsets/indent unchanged
+}
+
+#[derive(Debug, Default)]
+pub struct HookState {
+    pub depth: u32,
+    pub max_depth: u32,
+    pub max_level: u32,
+    pub entries: u64,
+    pub probe: bool,
+    pub log: Vec<ProbeRecord>,
+    pub mismatches: Vec<ProbeRecord>,
+}
+
+thread_local! {
+    static STATE: RefCell<HookState> = RefCell::new(HookState::default());
+}
+
+pub fn reset(probe: bool) {
+    STATE.with(|s| { *s.borrow_mut() = HookState { probe, ..HookState::default() }; });
+}
+
+pub fn take() -> HookState {
+    STATE.with(|s| std::mem::take(&mut *s.borrow_mut()))
+}
+
+pub fn probe_enabled() -> bool {
+    STATE.with(|s| s.borrow().probe)
+}
+
+pub struct Frame;
+impl Frame {
+    pub fn enter(level: u32) -> Frame {
+        STATE.with(|s| {
+            let mut s = s.borrow_mut();
+            s.depth += 1;
+            s.entries += 1;
+            if s.depth > s.max_depth { s.max_depth = s.depth; }
+            if level > s.max_level { s.max_level = level; }
+        });
+        Frame
+    }
+}
+impl Drop for Frame {
+    fn drop(&mut self) {
+        STATE.with(|s| { let mut s = s.borrow_mut(); s.depth = s.depth.saturating_sub(1); });
+    }
+}
+
+pub fn tree_size(node: &Node) -> usize {
+    let mut k = 0;
+    let mut stack = vec![node];
+    while let Some(n) = stack.pop() { k += 1; for c in n.children.iter() { stack.push(c); } }
+    k
+}
+
+pub fn record(rec: ProbeRecord) {
+    STATE.with(|s| {
+        let mut s = s.borrow_mut();
+        let bad = !rec.silent_kept_tree || !rec.silent_kept_pos
+            || (rec.silent.is_some() && rec.real.is_none())
+            || (rec.inline && rec.silent.is_some() && rec.silent != rec.real);
+        if bad && s.mismatches.len() < 64 { s.mismatches.push(rec.clone()); }
+        if s.log.len() < 4096 { s.log.push(rec); }
+    });
+}
